@@ -105,6 +105,21 @@ theorem uaA_sub : ∀ (arms : List (List CS)) (u x : List Nat), uaA arms u = som
         · exact uaA_sub more u q hm y hy
 end
 
+theorem uaA_cons (a : List CS) (more : List (List CS)) (u : List Nat) :
+    uaA (a :: more) u = (match uaB a u, uaA more u with
+      | some x, some y => some (x ++ y)
+      | _, _ => none) := by
+  simp only [uaA]
+  cases uaB a u <;> cases uaA more u <;> rfl
+
+theorem runA_some : ∀ (more : List (List CS)) (x : List CS) (n : Nat) (cs a : List Nat),
+    runA (x :: more) n cs a ≠ none
+  | [], x, n, cs, a => by simp [runA]
+  | y :: more, x, 0, cs, a => by simp [runA]
+  | y :: more, x, n + 1, cs, a => by
+    simp only [runA]
+    exact runA_some more y n cs a
+
 /-! ### loops -/
 theorem iter_post (F u ub : List Nat) (body : List Nat → List Nat → Res)
     (hb : ∀ cs a, Cov F a u → Post F ub (body cs a)) (hsub : ∀ x ∈ ub, x ∈ u) :
@@ -126,7 +141,7 @@ theorem iter_post (F u ub : List Nat) (body : List Nat → List Nat → Res)
 
 /-! ### soundness: every statement, every block, every arm, every stream of choices -/
 mutual
-theorem soundS (F : List Nat) : ∀ (s : CS) (u u' cs a : List Nat), uaS s u = some u' → Cov F a u →
+theorem ctorSoundS (F : List Nat) : ∀ (s : CS) (u u' cs a : List Nat), uaS s u = some u' → Cov F a u →
     Post F u' (runS s cs a)
   | .assign f, u, u', cs, a, h, hc => by
     simp only [uaS, Option.some.injEq] at h; subst h
@@ -153,12 +168,12 @@ theorem soundS (F : List Nat) : ∀ (s : CS) (u u' cs a : List Nat), uaS s u = s
         have hl : ∀ x ∈ p, x ∈ p ++ q := fun x hx => List.mem_append.mpr (Or.inl hx)
         have hr : ∀ x ∈ q, x ∈ p ++ q := fun x hx => List.mem_append.mpr (Or.inr hx)
         cases cs with
-        | nil => simp only [runS]; exact (soundB F t u p [] a ht hc).weaken hl
+        | nil => simp only [runS]; exact (ctorSoundB F t u p [] a ht hc).weaken hl
         | cons c cs =>
           simp only [runS]
           split
-          · exact (soundB F t u p cs a ht hc).weaken hl
-          · exact (soundB F e u q cs a he hc).weaken hr
+          · exact (ctorSoundB F t u p cs a ht hc).weaken hl
+          · exact (ctorSoundB F e u q cs a he hc).weaken hr
   | .ifOnly t, u, u', cs, a, h, hc => by
     simp only [uaS] at h
     cases ht : uaB t u with
@@ -171,7 +186,7 @@ theorem soundS (F : List Nat) : ∀ (s : CS) (u u' cs a : List Nat), uaS s u = s
         simp only [runS]
         split
         · exact ⟨fun _ => hc, fun hr => absurd hr (by simp)⟩
-        · exact (soundB F t u p cs a ht hc).weaken (uaB_sub t u p ht)
+        · exact (ctorSoundB F t u p cs a ht hc).weaken (uaB_sub t u p ht)
   | .loop b, u, u', cs, a, h, hc => by
     simp only [uaS] at h
     cases ht : uaB b u with
@@ -182,7 +197,7 @@ theorem soundS (F : List Nat) : ∀ (s : CS) (u u' cs a : List Nat), uaS s u = s
       | nil => simp only [runS]; exact ⟨fun _ => hc, fun hr => absurd hr (by simp)⟩
       | cons c cs =>
         simp only [runS]
-        exact iter_post F u p (fun cs a => runB b cs a) (fun cs' a' hc' => soundB F b u p cs' a' ht hc')
+        exact iter_post F u p (fun cs a => runB b cs a) (fun cs' a' hc' => ctorSoundB F b u p cs' a' ht hc')
           (uaB_sub b u p ht) c cs a hc
   | .matchS [] ca, u, u', cs, a, h, hc => by
     simp only [uaS, Option.some.injEq] at h; subst h
@@ -204,13 +219,13 @@ theorem soundS (F : List Nat) : ∀ (s : CS) (u u' cs a : List Nat), uaS s u = s
       | nil =>
         simp only [runS]
         cases hr : runA (x :: more) 0 [] a with
-        | none => exact absurd hr (by cases more <;> simp [runA])
-        | some r => simp only [Option.getD_some]; exact soundA F (x :: more) u p ha 0 [] a hc r hr
+        | none => exact absurd hr (runA_some more x 0 [] a)
+        | some r => simp only [Option.getD_some]; exact ctorSoundA F (x :: more) u p ha 0 [] a hc r hr
       | cons c cs =>
         simp only [runS]
         cases hr : runA (x :: more) c cs a with
-        | none => exact absurd hr (by cases more <;> cases c <;> simp [runA])
-        | some r => simp only [Option.getD_some]; exact soundA F (x :: more) u p ha c cs a hc r hr
+        | none => exact absurd hr (runA_some more x c cs a)
+        | some r => simp only [Option.getD_some]; exact ctorSoundA F (x :: more) u p ha c cs a hc r hr
   | .matchS (y :: more) false, u, u', cs, a, h, hc => by
     simp only [uaS] at h
     cases ha : uaA (y :: more) u with
@@ -234,7 +249,7 @@ theorem soundS (F : List Nat) : ∀ (s : CS) (u u' cs a : List Nat), uaS s u = s
             exact ⟨fun _ => hc.weaken (fun x hx => List.mem_append.mpr (Or.inr hx)), fun hr => absurd hr (by simp)⟩
           | some r =>
             simp only [Option.getD_some]
-            exact (soundA F (y :: more) u p ha c cs a hc r hr).weaken (fun x hx => List.mem_append.mpr (Or.inl hx))
+            exact (ctorSoundA F (y :: more) u p ha c cs a hc r hr).weaken (fun x hx => List.mem_append.mpr (Or.inl hx))
   | .handle arms, u, u', cs, a, h, hc => by
     simp only [uaS] at h
     cases ha : uaA arms u with
@@ -253,7 +268,7 @@ theorem soundS (F : List Nat) : ∀ (s : CS) (u u' cs a : List Nat), uaS s u = s
           | none => simp only [Option.getD_none]; exact ⟨fun _ => hc, fun hr => absurd hr (by simp)⟩
           | some r =>
             simp only [Option.getD_some]
-            exact (soundA F arms u p ha c cs a hc r hr).weaken (uaA_sub arms u p ha)
+            exact (ctorSoundA F arms u p ha c cs a hc r hr).weaken (uaA_sub arms u p ha)
   | .ret, u, u', cs, a, h, hc => by
     simp only [uaS] at h
     split at h
@@ -266,7 +281,7 @@ theorem soundS (F : List Nat) : ∀ (s : CS) (u u' cs a : List Nat), uaS s u = s
       · have : u = [] := by simpa using hemp
         subst this; exact absurd hfu (by simp)
     · exact absurd h (by simp)
-theorem soundB (F : List Nat) : ∀ (b : List CS) (u u' cs a : List Nat), uaB b u = some u' → Cov F a u →
+theorem ctorSoundB (F : List Nat) : ∀ (b : List CS) (u u' cs a : List Nat), uaB b u = some u' → Cov F a u →
     Post F u' (runB b cs a)
   | [], u, u', cs, a, h, hc => by
     simp only [uaB, Option.some.injEq] at h; subst h
@@ -278,7 +293,7 @@ theorem soundB (F : List Nat) : ∀ (b : List CS) (u u' cs a : List Nat), uaB b 
     | none => simp [hs] at h
     | some u1 =>
       simp only [hs] at h
-      have hp := soundS F s u u1 cs a hs hc
+      have hp := ctorSoundS F s u u1 cs a hs hc
       simp only [runB]
       cases hr : runS s cs a with
       | mk r rest =>
@@ -287,8 +302,8 @@ theorem soundB (F : List Nat) : ∀ (b : List CS) (u u' cs a : List Nat), uaB b 
           rw [hr] at hp
           cases r with
           | true => exact ⟨fun h => absurd h (by simp), fun _ => hp.2 rfl⟩
-          | false => exact soundB F ss u1 u' cs' a' h (hp.1 rfl)
-theorem soundA (F : List Nat) : ∀ (arms : List (List CS)) (u x : List Nat), uaA arms u = some x →
+          | false => exact ctorSoundB F ss u1 u' cs' a' h (hp.1 rfl)
+theorem ctorSoundA (F : List Nat) : ∀ (arms : List (List CS)) (u x : List Nat), uaA arms u = some x →
     ∀ (n : Nat) (cs a : List Nat), Cov F a u → ∀ r, runA arms n cs a = some r → Post F x r
   | [], u, x, _, n, cs, a, _, r, hr => by simp [runA] at hr
   | [y], u, x, h, n, cs, a, hc, r, hr => by
@@ -298,37 +313,33 @@ theorem soundA (F : List Nat) : ∀ (arms : List (List CS)) (u x : List Nat), ua
     | some p =>
       simp only [hy, Option.some.injEq, List.append_nil] at h; subst h
       simp only [runA, Option.some.injEq] at hr; subst hr
-      exact soundB F y u p cs a hy hc
+      exact ctorSoundB F y u p cs a hy hc
   | y :: z :: more, u, x, h, 0, cs, a, hc, r, hr => by
-    simp only [uaA] at h
+    rw [uaA_cons] at h
     cases hy : uaB y u with
     | none => simp [hy] at h
     | some p =>
       cases hm : uaA (z :: more) u with
-      | none => simp [hy, hm, uaA] at h
+      | none => simp [hy, hm] at h
       | some q =>
         have h' : x = p ++ q := by
-          have := h; simp only [hy] at this
-          simp only [uaA] at hm
-          simp only [hm, Option.some.injEq] at this; exact this.symm
+          simp only [hy, hm, Option.some.injEq] at h; exact h.symm
         subst h'
         simp only [runA, Option.some.injEq] at hr; subst hr
-        exact (soundB F y u p cs a hy hc).weaken (fun v hv => List.mem_append.mpr (Or.inl hv))
+        exact (ctorSoundB F y u p cs a hy hc).weaken (fun v hv => List.mem_append.mpr (Or.inl hv))
   | y :: z :: more, u, x, h, n + 1, cs, a, hc, r, hr => by
-    simp only [uaA] at h
+    rw [uaA_cons] at h
     cases hy : uaB y u with
     | none => simp [hy] at h
     | some p =>
       cases hm : uaA (z :: more) u with
-      | none => simp [hy, hm, uaA] at h
+      | none => simp [hy, hm] at h
       | some q =>
         have h' : x = p ++ q := by
-          have := h; simp only [hy] at this
-          simp only [uaA] at hm
-          simp only [hm, Option.some.injEq] at this; exact this.symm
+          simp only [hy, hm, Option.some.injEq] at h; exact h.symm
         subst h'
         simp only [runA] at hr
-        exact (soundA F (z :: more) u q hm n cs a hc r hr).weaken (fun v hv => List.mem_append.mpr (Or.inr hv))
+        exact (ctorSoundA F (z :: more) u q hm n cs a hc r hr).weaken (fun v hv => List.mem_append.mpr (Or.inr hv))
 end
 
 end MV
